@@ -174,12 +174,18 @@ var failTypes = map[string][]string{
 	FAssert:    {"stdlib.AssertionError", "*stdlib.AssertionError"},
 	FCondition: {"interpreter.ConditionError", "*interpreter.ConditionError"},
 	FDupAttach: {"interpreter.DuplicateAttachmentError", "*interpreter.DuplicateAttachmentError"},
+	FCtExists:   {"*errors.errorString", "errors.DefaultUserError", "*errors.DefaultUserError"},
+	FCtMissing:  {"*errors.errorString", "errors.DefaultUserError", "*errors.DefaultUserError"},
+	FCtInvalid:  {"*sema.CheckerError*", "parser.Error*", "*errors.errorString", "*stdlib.InvalidContractDeploymentError*", "errors.DefaultUserError"},
+	FCtIncompat: {"*stdlib.ContractUpdateError*"},
+	FCtRemoval:  {"*stdlib.ContractRemovalError"},
+	FChecker:    {"*sema.CheckerError*"},
 	"invalidRef": {"interpreter.InvalidatedResourceReferenceError", "*interpreter.InvalidatedResourceReferenceError", "interpreter.DereferenceError", "*interpreter.DereferenceError"},
 }
 
 func failTypeOK(kind, errType string) bool {
 	for _, t := range failTypes[kind] {
-		if t == errType {
+		if t == errType || (strings.HasSuffix(t, "*") && strings.HasPrefix(errType, strings.TrimSuffix(t, "*"))) {
 			return true
 		}
 	}
@@ -950,6 +956,32 @@ func (r *Runner) attempt(i int, n *Node, s *Step, req ExecReq, at Attempt, t0 *T
 	r.checkFaulted(i, n, t, "")
 	if len(t.Writes) > 0 {
 		r.Stats.Probes["abort_with_partial_commit_writes"]++
+	}
+	// C26 under host faults: a tryUpdate that absorbed a fault and reports "failed" must have changed nothing
+	if t.Class == "ok" && t.FiredSeq >= 0 && t.RegionAt(t.FiredSeq) == "TRY" {
+		r.Stats.Probes["fault_absorbed_by_tryUpdate"]++
+		failedTry := 0
+		for _, o := range t.Obs {
+			if o == "try=nil" {
+				failedTry++
+			}
+		}
+		tries := 0
+		for _, o := range s.Ops {
+			if o.K == "ct.tryUpdate" {
+				tries++
+			}
+		}
+		if tries == 1 && failedTry == 1 && len(s.Ops) > 0 {
+			for _, cu := range t.CodeUpdates {
+				for _, o := range s.Ops {
+					if o.K == "ct.tryUpdate" && strings.Contains(cu, fmt.Sprintf("%s.%s ", addr(uint64(o.A)).Hex(), o.S)) {
+						r.violate("C26", "tryUpdate.failed-changes-nothing", i, n.Cfg.Name, "tryUpdate-failed-but-code-updated:"+t.Trace[t.FiredSeq].Kind,
+							"tryUpdate of %s reported failure (host fault %v absorbed) but the host received the code update: %s", o.S, t.Fired, cu)
+					}
+				}
+			}
+		}
 	}
 }
 
